@@ -337,124 +337,7 @@ func c07r2r3(c *core.Ctx) {
 		if !hasLoopCall {
 			continue
 		}
-		// find the variable the literal is assigned to in the parent, and the calls it is passed to
-		parent := f.Parent
-		var holder *types.Var
-		core.InspectNoLits(parent.Body, func(n ast.Node) bool {
-			if as, ok := n.(*ast.AssignStmt); ok {
-				for i, r := range as.Rhs {
-					if ast.Unparen(r) == f.Lit && i < len(as.Lhs) {
-						if id, ok := ast.Unparen(as.Lhs[i]).(*ast.Ident); ok {
-							holder, _ = m.Info.ObjectOf(id).(*types.Var)
-						}
-					}
-				}
-			}
-			return true
-		})
-		flows := 0
-		ok := true
-		detail := ""
-		// sinks: the calls in function g that receive the value (isValue) as an argument
-		var sinks func(g *core.Func, isValue func(ast.Expr) bool)
-		sinks = func(g *core.Func, isValue func(ast.Expr) bool) {
-			core.InspectNoLits(g.Body, func(n ast.Node) bool {
-				call, isCall := n.(*ast.CallExpr)
-				if !isCall {
-					return true
-				}
-				for i, arg := range call.Args {
-					if !isValue(ast.Unparen(arg)) {
-						continue
-					}
-					flows++
-					k, cal, _ := m.Callee(call)
-					if k != core.CallStatic {
-						ok = false
-						detail = "flows into a non-static call"
-						continue
-					}
-					if !paramInvokedUnderLock(c, a, cal, i, 0) {
-						ok = false
-						detail = fmt.Sprintf("parameter %d of %s is not invoked under the world lock", i, cal.Name)
-					}
-				}
-				return true
-			})
-		}
-		// a builder that returns the literal (directly or through its holder): the value continues at every call site
-		// of the builder, passed on directly or through the local that receives it
-		returned := false
-		core.InspectNoLits(parent.Body, func(n ast.Node) bool {
-			if rs, isR := n.(*ast.ReturnStmt); isR {
-				for _, r := range rs.Results {
-					r = ast.Unparen(r)
-					if r == ast.Expr(f.Lit) {
-						returned = true
-					}
-					if id, isID := r.(*ast.Ident); isID && holder != nil && m.Info.ObjectOf(id) == holder {
-						returned = true
-					}
-				}
-			}
-			return true
-		})
-		if returned && parent.Lit == nil {
-			for _, cs := range m.CallSites() {
-				if cs.Callee != parent {
-					continue
-				}
-				bcall := cs.Call
-				var h2 *types.Var
-				core.InspectNoLits(cs.Caller.Body, func(n ast.Node) bool {
-					if as, isAs := n.(*ast.AssignStmt); isAs {
-						for i, r := range as.Rhs {
-							if ast.Unparen(r) == ast.Expr(bcall) && i < len(as.Lhs) && len(as.Lhs) == len(as.Rhs) {
-								if id, isID := ast.Unparen(as.Lhs[i]).(*ast.Ident); isID {
-									h2, _ = m.Info.ObjectOf(id).(*types.Var)
-								}
-							}
-						}
-					}
-					return true
-				})
-				sinks(cs.Caller, func(e ast.Expr) bool {
-					if e == ast.Expr(bcall) {
-						return true
-					}
-					id, isID := e.(*ast.Ident)
-					return isID && h2 != nil && m.Info.ObjectOf(id) == h2
-				})
-			}
-		}
-		core.InspectNoLits(parent.Body, func(n ast.Node) bool {
-			call, isCall := n.(*ast.CallExpr)
-			if !isCall {
-				return true
-			}
-			for i, arg := range call.Args {
-				passes := ast.Unparen(arg) == f.Lit
-				if id, isID := ast.Unparen(arg).(*ast.Ident); isID && holder != nil && m.Info.ObjectOf(id) == holder {
-					passes = true
-				}
-				if !passes {
-					continue
-				}
-				flows++
-				k, cal, _ := m.Callee(call)
-				if k != core.CallStatic {
-					ok = false
-					detail = "flows into a non-static call"
-					continue
-				}
-				// follow simple forwarders (e.g. removeBatch -> exchangeBatch) until a function that invokes the parameter
-				if !paramInvokedUnderLock(c, a, cal, i, 0) {
-					ok = false
-					detail = fmt.Sprintf("parameter %d of %s is not invoked under the world lock", i, cal.Name)
-				}
-			}
-			return true
-		})
+		flows, ok, detail := literalFlows(c, a, f)
 		key := f.Name + " callback loop"
 		if flows == 0 {
 			c.Violation("C07/R2", key, c.At(f.Pos()), "function literal with a user-callback loop does not flow into a lock-holding batch operation")
@@ -464,6 +347,132 @@ func c07r2r3(c *core.Ctx) {
 			c.OK("C07/R2", key, c.At(f.Pos()), "literal flows only into a parameter that is invoked between acquire and release")
 		}
 	}
+}
+
+// literalFlows follows a function literal to the calls it is passed to (directly, through the local that holds it, or
+// through a builder that returns it): flows counts them; ok is false when one of them does not invoke the
+// corresponding parameter between acquire and release of the world lock.
+func literalFlows(c *core.Ctx, a *Anchors, f *core.Func) (int, bool, string) {
+	m := c.M
+	// find the variable the literal is assigned to in the parent, and the calls it is passed to
+	parent := f.Parent
+	var holder *types.Var
+	core.InspectNoLits(parent.Body, func(n ast.Node) bool {
+		if as, ok := n.(*ast.AssignStmt); ok {
+			for i, r := range as.Rhs {
+				if ast.Unparen(r) == f.Lit && i < len(as.Lhs) {
+					if id, ok := ast.Unparen(as.Lhs[i]).(*ast.Ident); ok {
+						holder, _ = m.Info.ObjectOf(id).(*types.Var)
+					}
+				}
+			}
+		}
+		return true
+	})
+	flows := 0
+	ok := true
+	detail := ""
+	// sinks: the calls in function g that receive the value (isValue) as an argument
+	var sinks func(g *core.Func, isValue func(ast.Expr) bool)
+	sinks = func(g *core.Func, isValue func(ast.Expr) bool) {
+		core.InspectNoLits(g.Body, func(n ast.Node) bool {
+			call, isCall := n.(*ast.CallExpr)
+			if !isCall {
+				return true
+			}
+			for i, arg := range call.Args {
+				if !isValue(ast.Unparen(arg)) {
+					continue
+				}
+				flows++
+				k, cal, _ := m.Callee(call)
+				if k != core.CallStatic {
+					ok = false
+					detail = "flows into a non-static call"
+					continue
+				}
+				if !paramInvokedUnderLock(c, a, cal, i, 0) {
+					ok = false
+					detail = fmt.Sprintf("parameter %d of %s is not invoked under the world lock", i, cal.Name)
+				}
+			}
+			return true
+		})
+	}
+	// a builder that returns the literal (directly or through its holder): the value continues at every call site
+	// of the builder, passed on directly or through the local that receives it
+	returned := false
+	core.InspectNoLits(parent.Body, func(n ast.Node) bool {
+		if rs, isR := n.(*ast.ReturnStmt); isR {
+			for _, r := range rs.Results {
+				r = ast.Unparen(r)
+				if r == ast.Expr(f.Lit) {
+					returned = true
+				}
+				if id, isID := r.(*ast.Ident); isID && holder != nil && m.Info.ObjectOf(id) == holder {
+					returned = true
+				}
+			}
+		}
+		return true
+	})
+	if returned && parent.Lit == nil {
+		for _, cs := range m.CallSites() {
+			if cs.Callee != parent {
+				continue
+			}
+			bcall := cs.Call
+			var h2 *types.Var
+			core.InspectNoLits(cs.Caller.Body, func(n ast.Node) bool {
+				if as, isAs := n.(*ast.AssignStmt); isAs {
+					for i, r := range as.Rhs {
+						if ast.Unparen(r) == ast.Expr(bcall) && i < len(as.Lhs) && len(as.Lhs) == len(as.Rhs) {
+							if id, isID := ast.Unparen(as.Lhs[i]).(*ast.Ident); isID {
+								h2, _ = m.Info.ObjectOf(id).(*types.Var)
+							}
+						}
+					}
+				}
+				return true
+			})
+			sinks(cs.Caller, func(e ast.Expr) bool {
+				if e == ast.Expr(bcall) {
+					return true
+				}
+				id, isID := e.(*ast.Ident)
+				return isID && h2 != nil && m.Info.ObjectOf(id) == h2
+			})
+		}
+	}
+	core.InspectNoLits(parent.Body, func(n ast.Node) bool {
+		call, isCall := n.(*ast.CallExpr)
+		if !isCall {
+			return true
+		}
+		for i, arg := range call.Args {
+			passes := ast.Unparen(arg) == f.Lit
+			if id, isID := ast.Unparen(arg).(*ast.Ident); isID && holder != nil && m.Info.ObjectOf(id) == holder {
+				passes = true
+			}
+			if !passes {
+				continue
+			}
+			flows++
+			k, cal, _ := m.Callee(call)
+			if k != core.CallStatic {
+				ok = false
+				detail = "flows into a non-static call"
+				continue
+			}
+			// follow simple forwarders (e.g. removeBatch -> exchangeBatch) until a function that invokes the parameter
+			if !paramInvokedUnderLock(c, a, cal, i, 0) {
+				ok = false
+				detail = fmt.Sprintf("parameter %d of %s is not invoked under the world lock", i, cal.Name)
+			}
+		}
+		return true
+	})
+	return flows, ok, detail
 }
 
 func paramIndexOf(f *core.Func, v *types.Var) (int, bool) {
@@ -548,7 +557,7 @@ func c07r5(c *core.Ctx) {
 		if ff.Sig == nil || ff.Sig.Params().Len() == 0 {
 			return false
 		}
-		if id, ok := ast.Unparen(call.Args[0]).(*ast.Ident); !ok || m.Info.ObjectOf(id) != ff.Sig.Params().At(0) {
+		if id, ok := m.StripConv(call.Args[0]).(*ast.Ident); !ok || m.Info.ObjectOf(id) != ff.Sig.Params().At(0) {
 			return false
 		}
 		if m.AccessPath(ff, sel.X).Has("lock.locks") {
@@ -1086,6 +1095,15 @@ func heldByAllCallers(c *core.Ctx, a *Anchors, f *core.Func, site ast.Node, dept
 		if !calls {
 			continue
 		}
+		if g.Lit != nil {
+			// called from a function literal: the literal runs where it is invoked; held when it flows only into
+			// parameters that are invoked between acquire and release (the literal clause of R2 reports it too)
+			sites++
+			if flows, lok, _ := literalFlows(c, a, g); flows == 0 || !lok {
+				ok = false
+			}
+			continue
+		}
 		la := newLockAnalysis(c, a, g)
 		la.walk(func(s lockState, n ast.Node) {
 			call, isCall := n.(*ast.CallExpr)
@@ -1116,7 +1134,8 @@ func knownAtoms(m *core.Model, f *core.Func, node ast.Node) map[string]bool {
 		return nil
 	}
 	norm := func(a core.Atom) (string, bool, bool) {
-		e := ast.Unparen(a.Expr)
+		// (an accessor that merely names a test - slots.has(i) for slots[i] != nil - is read as that test)
+		e := ast.Unparen(m.Inline(a.Expr))
 		if be, ok := e.(*ast.BinaryExpr); ok && (be.Op == token.EQL || be.Op == token.NEQ) {
 			x, y := ast.Unparen(be.X), ast.Unparen(be.Y)
 			if id, ok := x.(*ast.Ident); ok && id.Name == "nil" {
@@ -1127,11 +1146,14 @@ func knownAtoms(m *core.Model, f *core.Func, node ast.Node) map[string]bool {
 			}
 			return "", false, false
 		}
-		if t := m.Info.TypeOf(e); t != nil {
-			if b, ok := t.Underlying().(*types.Basic); ok && b.Info()&types.IsBoolean != 0 {
-				switch e.(type) {
-				case *ast.Ident, *ast.SelectorExpr:
-					return m.ExprString(e), a.Truth, true
+		// (a boolean variable or field is an atom as written, whatever its defining expression inlines to)
+		for _, e := range []ast.Expr{ast.Unparen(a.Expr), e} {
+			if t := m.Info.TypeOf(e); t != nil {
+				if b, ok := t.Underlying().(*types.Basic); ok && b.Info()&types.IsBoolean != 0 {
+					switch e.(type) {
+					case *ast.Ident, *ast.SelectorExpr:
+						return m.ExprString(e), a.Truth, true
+					}
 				}
 			}
 		}
